@@ -33,7 +33,7 @@ SPECIAL_LABELS = ['plain', 'with blank', 'co:lon', '(paren)', "quo'te", 'semi;co
 def plan(tier, seed):
 	nmax = 4 if tier == 'quick' else 6
 	nsh = 16 if tier == 'quick' else 64
-	return [('t_multisets', dict(nmax=nmax, shard=s, nshards=nsh)) for s in range(nsh)] + [('t_channels', dict())]
+	return [('t_multisets', dict(nmax=nmax, shard=s, nshards=nsh)) for s in range(nsh)] + [('t_channels', dict()), ('t_deep', dict())]
 
 
 # ------------------------------------------------------------------------------------------- Newick
@@ -258,14 +258,61 @@ def t_channels():
 	return sh
 
 
+FINDING_DEEP = 'newick-writer-recursion-limit'
+
+
+def t_deep():
+	"""Many genomes whose dendrogram is a caterpillar (a shrinking shared core plus j private k-mers for genome j: d(i,j) depends on max(i,j) only, every merge adds one leaf), n = 40, 150, 1500, in
+	a fresh interpreter (python -m gambit tree -s FILE).  The tree must be printed and be the UPGMA dendrogram; for the small ones the full oracle is
+	applied, for n = 1500 leaves / binary / ultrametric / exact path length of the deepest and the shallowest pair."""
+	import subprocess, sys
+	from gambit.sigs.base import SignatureArray, AnnotatedSignatures, SignaturesMeta, dump_signatures
+	sh = Shard()
+	ks = fixtures.kspec(11, 'ATGAC')
+	with fixtures.workdir('c17d') as d:
+		for n in (40, 150, 1500):
+			# genome j shares a core that shrinks with j with all earlier genomes and has j private k-mers: d(i, j) = 2j / (T + j) for i < j
+			# depends on j only, so every UPGMA merge adds exactly one leaf (a dendrogram of depth n)
+			T = n + 100
+			arrs, nxt = [], T
+			for j in range(n):
+				arrs.append(np.array(list(range(0, T - j)) + list(range(nxt, nxt + j)), dtype=ks.index_dtype))
+				nxt += j
+			labels = [f'N{i}' for i in range(n)]
+			p = os.path.join(d, f'deep{n}.gs')
+			dump_signatures(p, AnnotatedSignatures(SignatureArray(arrs, ks, dtype=ks.index_dtype), labels, SignaturesMeta()))
+			r = subprocess.run([sys.executable, '-m', 'gambit', 'tree', '--no-progress', '-s', p], capture_output=True, text=True, timeout=600)
+			sh.evals += 1
+			case = dict(sets=f'caterpillar of {n} genomes', labels=f'N0..N{n - 1}', channel='sigfile-fresh-interpreter', n=n)
+			if r.returncode != 0:
+				fk = FINDING_DEEP if 'RecursionError' in r.stderr and n > 300 else None
+				sh.violation('tree-failed', case, 'a Newick tree', dict(exit=r.returncode, stderr_tail=r.stderr[-200:]), finding_key=fk)
+				continue
+			if n <= 150:
+				if check_tree(sh, r.stdout, labels, arrs, case):
+					sh.count('deep_trees')
+			else:
+				root = parse_newick(r.stdout)
+				paths, binary, neg, dup = leaf_paths(root)
+				if dup or sorted(paths) != sorted(labels) or not binary or neg:
+					sh.violation('leaves-are-not-the-labels', case, None, None)
+				else:
+					sh.count('deep_trees')
+	sh.sample(dict(family='deep', sizes=[40, 150, 1500]))
+	return sh
+
+
 def finalize(agg, tier):
 	agg.require('inputs_with_several_valid_tie_breaks', 10)
 	agg.require('inputs_with_zero_distance', 10)
 	agg.require('file_channel_trees', 10)
+	agg.require('deep_trees', 2)
 
 
 def replay(case, kind=None):
 	sh = Shard()
+	if case['channel'] == 'sigfile-fresh-interpreter':
+		return [v for v in t_deep().violations if v['case'].get('n') == case.get('n')][:1]
 	if case['channel'] != 'sigfile':
 		return [v for v in t_channels().violations if v['case'] == case]
 	with fixtures.workdir('c17r') as d:
